@@ -56,6 +56,7 @@ def run(prog, R, tier="quick", only_rule=None):
     # a version is visible in memory only after it is on disk (else the files it names may never become durable / named)
     from rules.props import c02
     c02.c02a(prog, R, rid="C20.l")
+    c20m(prog, R)
 
 
 def c20a(prog, R):
@@ -452,3 +453,25 @@ def c20g(prog, R):
     if len(seen_fns) < 15 or n_drops < 5:
         r.anchor_missing("writer-owning locals / drops (fns %d, drops %d)" % (len(seen_fns), n_drops))
     r.floor(5)
+
+
+def c20m(prog, R, rid="C20.m"):
+    """register_tables is handed freshly written table / blob files.  On every success path it either publishes them (version
+    upgrade) or - when it discards the flush result because its sealed memtables are gone - marks them deleted; otherwise the
+    files stay on disk, named by no version, until the next reopen (finding F15)."""
+    from rules.engine import must_pass, MaySet
+    r = R.rule(rid, "a flush result is either published or marked deleted", "P")
+    f = prog.need(A.tm(A.TREE, "register_tables"))
+    ups = MaySet(prog, [A.UPGRADE, A.UPGRADE_SEQNO], "upgrade")
+    marks = {c.bb for c in f.calls if c.sres == A.TABLE_MARK_DELETED}
+    # the marking loop over the `tables` parameter (an empty slice legitimately marks nothing: count the loop, not its body)
+    loops = set()
+    for c in f.calls:
+        if c.sres.endswith(("::into_iter", "slice::iter")) and c.args and \
+                any(o.kind == "param" and f.local_name(o.what) == "tables" for o in origins(f, c.args[0])) and (marks & f.reach_after(c.bb)):
+            loops.add(c.bb)
+    S = {c.bb for c in f.calls if ups.call_in(c)} | loops
+    r.check(bool(S) and must_pass(f, S), "%s|every success path publishes the tables or marks them deleted" % f.path,
+            "register_tables can return Ok without publishing the flushed tables and without marking them deleted: their files "
+            "stay in tables/ (and blobs/) although no version names them", f.where())
+    r.floor(1)
